@@ -117,6 +117,11 @@ class Emitter:
                 self.layer.dtc_dops.append(og.dtc_dop(lid, lname, self.dct(d["dct"], key_ids),
                                                       [(f"{lid}.{c}", f"P{c:06X}", c, f"fault {c}") for c in inherited + [hidden]]))
                 linked = [(lid, [f"P{hidden:06X}"])]
+                # ... and a second linked DTC-DOP provides the same trouble code by reference (it is still one trouble code)
+                lid2, lname2 = self.uid("DTC")
+                self.layer.dtc_dops.append(og.dtc_dop(lid2, lname2, self.dct(d["dct"], key_ids), [],
+                                                      dtc_refs=[f"{lid}.{c}" for c in inherited]))
+                linked.append((lid2, []))
             self.layer.dtc_dops.append(og.dtc_dop(oid, name, self.dct(d["dct"], key_ids),
                                                   [(f"{oid}.{c}", f"P{c:06X}", c, f"fault {c}") for c in own], linked=linked))
             return oid
